@@ -9,6 +9,7 @@ loop ends by itself.  Not proved: that the loop always ends (`C02_statement`).
 import Chokan.Lemmas.KkcScore
 import Chokan.Lemmas.KkcTiling
 import Chokan.Lemmas.KkcAstar
+import Chokan.Lemmas.KkcTermination
 
 namespace Chokan.Props.C02
 open Chokan.Kkc Chokan.Dic
@@ -112,12 +113,30 @@ theorem C02 (t : Tables) (input : Str) (d : Dict) (ctx : Ctx) (f : Freq) (n fuel
   refine ⟨?_, h2⟩
   simp [getCandidates, hg0, h1]
 
-/-- Full-strength statement: `C02` together with termination of the loop (some `fuel` suffices).
-Termination is not yet proved in the model; on the implementation every generated case terminates and
-is compared with exhaustive enumeration by the C02 check. -/
+/-- Full-strength statement: from some number of iterations on the loop ends by itself, always with
+the same list, which is duplicate-free, best-first and optimal over all connectable paths of the lattice. -/
 def C02_statement : Prop :=
   ∀ (t : Tables) (input : Str) (d : Dict) (ctx : Ctx) (f : Freq) (n : Nat), 1 ≤ n → Dict.WF d →
     ∀ g0, fromInput t input d ctx = some g0 →
-    ∃ fuel R, nBestE t ctx f (forwardDp t ctx f g0) n fuel = some R
+    ∃ fuel0 R, ∀ fuel, fuel0 ≤ fuel →
+      getCandidates t input d ctx f n fuel = some R ∧
+      R.length ≤ n ∧ (R.map Cand.text).Nodup ∧ (R.map Cand.score).Pairwise (· ≥ ·) ∧
+      ∀ (p : List Node) (s : Nat), IsChain (forwardDp t ctx f g0) (.bos :: p) →
+        pathScore t ctx f (.bos :: p) = some s →
+        ((p.map Node.text).flatten ∈ R.map Cand.text) ∨ (R.length = n ∧ ∀ r ∈ R, s ≤ r.score)
+
+/-- **C02 at full strength**, termination of the `while let` loop included: the total weight of the
+heap (each candidate weighs one plus all chains extending it) decreases with every iteration. -/
+theorem C02_full : C02_statement := by
+  intro t input d ctx f n hn hd g0 hg0
+  have hg := fromInput_ok t input d ctx hd g0 hg0
+  have hg' := forwardDp_ok t ctx f input g0 hg
+  obtain ⟨fuel0, R, hR⟩ := nBestE_terminates t ctx f input (forwardDp t ctx f g0) hg' n
+  refine ⟨fuel0, R, ?_⟩
+  intro fuel hf
+  have hR' : nBestE t ctx f (forwardDp t ctx f g0) n fuel = some R := by
+    have := nBestE_mono t ctx f _ n fuel0 R hR (fuel - fuel0)
+    rwa [show fuel0 + (fuel - fuel0) = fuel by omega] at this
+  exact C02 t input d ctx f n fuel hn hd g0 hg0 R hR'
 
 end Chokan.Props.C02
